@@ -3,7 +3,7 @@
    a cleaned conjunct does not depend on the order in which its conditions arrive (Go map iteration, unstable
    sort.Slice); witnesses for the alternative readings of NOT. *)
 From Coq Require Import List NArith ZArith Bool Lia Permutation.
-From Pk Require Import Query QuerySort QueryClean QueryFlags QueryHosts QueryOps QuerySet QueryAtoms QueryMain QuerySeq QueryThen.
+From Pk Require Import Query QuerySort QueryClean QueryFlags QueryHosts QueryOps QuerySet QueryAtoms QueryMain QuerySeq QueryThen QueryGroup.
 Import ListNotations.
 Open Scope Z_scope.
 
@@ -132,3 +132,13 @@ Lemma ex_then_ok : tail_ok ex_then = true /\ expr_wf ex_then.
 Proof. split; [reflexivity|]. cbn. repeat split; discriminate. Qed.
 Lemma hypotheses_satisfiable_then : (val_ok ex_val /\ ids_ok ex_val) /\ (tail_ok ex_then = true /\ expr_wf ex_then).
 Proof. split; [exact ex_val_ok|exact ex_then_ok]. Qed.
+
+(* a group on the left of THEN: (cdata:0 id:0 -cdata:1) then -(cdata:1 then cdata:0), OR-ed with ex_then *)
+Definition ex_group : expr :=
+  EOr (EThen (EAnd (EAnd (EAtom (AData 0 [0%N])) (EAtom (ANum [0%N] 0 [ROne [NPNum false 0]]))) (ENot (EAtom (AData 0 [1%N]))))
+             (ENot (EThen (EAtom (AData 0 [1%N])) (EAtom (AData 0 [0%N])))))
+      ex_then.
+Lemma ex_group_ok : class_ok ex_group = true /\ expr_wf ex_group.
+Proof. split; [reflexivity|]. cbn. repeat split; discriminate. Qed.
+Lemma hypotheses_satisfiable_class : (val_ok ex_val /\ ids_ok ex_val) /\ (class_ok ex_group = true /\ expr_wf ex_group).
+Proof. split; [exact ex_val_ok|exact ex_group_ok]. Qed.
